@@ -21,7 +21,7 @@ MonInit == [cfg |-> [fin |-> TRUE, weak |-> TRUE, dbg |-> TRUE, auto |-> FALSE, 
             objs |-> <<>>, stack |-> <<>>, seen |-> {}, viol |-> <<>>, log |-> <<>>, n |-> 0,
             bytes |-> 0, blocks |-> <<>>, faulted |-> FALSE, resur |-> FALSE, x |-> 0, lastbf |-> 0,
             acfg |-> [auto |-> FALSE, pn |-> 1, pd |-> 10, bt |-> 0], big |-> FALSE,
-            acts |-> <<>>, cgone |-> {}]
+            acts |-> <<>>, cgone |-> {}, wup |-> FALSE]
 
 Ids(m) == DOMAIN m.objs
 Obj(m, o) == m.objs[o]
@@ -57,7 +57,7 @@ WCntObs(m, o) == WCnt(m, o) + m.objs[o].winfl
 \* ------------------------------------------------------------------ verdicts
 Flag(m, cond, prop, msg) ==
   IF cond /\ prop \notin DOMAIN m.viol
-  THEN [m EXCEPT !.viol = @ @@ (prop :> [msg |-> msg, n |-> m.n, run |-> m.cfg.run, faulted |-> m.faulted, resur |-> m.resur, big |-> m.big])]
+  THEN [m EXCEPT !.viol = @ @@ (prop :> [msg |-> msg, n |-> m.n, run |-> m.cfg.run, faulted |-> m.faulted, resur |-> m.resur, big |-> m.big, wup |-> m.wup])]
   ELSE m
 
 \* ------------------------------------------------------------------ frames
@@ -377,21 +377,26 @@ OnRet(m00, e) ==
                    a3 == Flag(a2, ~pan /\ (ob.vs # "live" \/ ob.bs # "live"), "C14", "new_cyclic returned a pointer to a value that is not alive")
                IN a3
           [] op \in {"clone", "mark", "downgrade"} /\ ~pan -> Flag(mL, InWalk(e, o), "C11", op \o " left the object in the buffer")
-          [] op = "clonef" /\ ~pan -> Flag(mL, InWalk(e, Get(e, "o", 0)), "C11", "clone left the object in the buffer")
+          [] op \in {"clonef", "take"} /\ ~pan ->
+               LET t == Get(e, "o", 0)
+                   a1 == IF op = "clonef" THEN Flag(mL, InWalk(e, t), "C11", "clone left the object in the buffer") ELSE mL
+               IN [a1 EXCEPT !.resur = @ \/ (Depth(m00) > 1 /\ t \notin Reach(m00))]
           [] op = "upgrade" ->
                LET ob == IF Known(m00, o) THEN m00.objs[o] ELSE NoObj
                    a1 == Flag(mL, res = "some" /\ (ob.vs # "live" \/ ob.bs # "live" \/ ~Get(e, "vok", TRUE)), "C08", "Weak::upgrade gave access to a dropped or freed value: object " \o ToString(o))
                    must == ob.vs = "live" /\ ob.bs = "live" /\ ~ob.tainted /\ Cnt(m00, o) >= 1 /\ (o \in Reach(m00) \/ ~DestrPhaseOpen(m00))
                    a2 == Flag(a1, res = "none" /\ must /\ ~pan, "C08", "Weak::upgrade failed although the value is alive: object " \o ToString(o))
                    a3 == Flag(a2, res = "some" /\ InWalk(e, o), "C11", "upgrade left the object in the buffer")
-               IN a3
+               IN [a3 EXCEPT !.resur = @ \/ (res = "some" /\ o \notin Reach(m00)),
+                             !.wup = @ \/ (res = "some" /\ o \notin Reach(m00) /\ DestrPhaseOpen(m00))]
           [] op = "upgradef" ->
                LET t == Get(e, "o", 0)
                    ob == IF Known(m00, t) THEN m00.objs[t] ELSE NoObj
                    a1 == Flag(mL, res = "some" /\ (ob.vs # "live" \/ ob.bs # "live" \/ ~Get(e, "vok", TRUE)), "C08", "Weak::upgrade gave access to a dropped or freed value: object " \o ToString(t))
                    must == ob.vs = "live" /\ ob.bs = "live" /\ ~ob.tainted /\ Cnt(m00, t) >= 1 /\ (t \in Reach(m00) \/ ~DestrPhaseOpen(m00))
                    a2 == Flag(a1, res = "none" /\ must /\ ~pan, "C08", "Weak::upgrade failed although the value is alive: object " \o ToString(t))
-               IN [a2 EXCEPT !.resur = @ \/ (res = "some" /\ t \notin Reach(m00))]
+               IN [a2 EXCEPT !.resur = @ \/ (res = "some" /\ t \notin Reach(m00)),
+                             !.wup = @ \/ (res = "some" /\ t \notin Reach(m00) /\ DestrPhaseOpen(m00))]
           [] op \in {"drop", "clear"} /\ ~pan /\ lim = 0 /\ Known(mL, o) ->
                Flag(mL, "walk" \in DOMAIN e /\ e.bf # -1 /\ mL.objs[o].vs = "live" /\ mL.objs[o].bs = "live" /\ Cnt(mL, o) >= 1 /\ mL.objs[o].slack = 0 /\ ~InWalk(e, o),
                     "C11", "object " \o ToString(o) \o " was not buffered although one of several Ccs to it was dropped")
@@ -465,7 +470,10 @@ OnCb(m, e) ==
         kn == c \in DOMAIN m.acts
         m1 == Flag(m, e.it, "C12", "is_tracing() is true inside a cleaning action")
         m2 == Flag(m1, kn /\ m.acts[c].runs >= 1, "C10", "cleaning action " \o ToString(c) \o " ran more than once")
-        m3 == Flag(m2, Depth(m) > 0 /\ Top(m).k = "op" /\ Top(m).op = "dropcl", "C10", "dropping a Cleanable ran a cleaning action")
+        m3a == Flag(m2, Depth(m) > 0 /\ Top(m).k = "op" /\ Top(m).op = "dropcl", "C10", "dropping a Cleanable ran a cleaning action")
+        inOwnClean == Depth(m) > 0 /\ Top(m).k = "op" /\ Top(m).op = "clean" /\ Top(m).c.c = c
+        ownerGoing == kn /\ m.acts[c].a \in m.cgone
+        m3 == Flag(m3a, kn /\ ~inOwnClean /\ ~ownerGoing /\ ~m.faulted, "C10", "cleaning action " \o ToString(c) \o " ran although neither its clean() was called nor its Cleaner dropped")
         m4 == IF kn THEN [m3 EXCEPT !.acts[c].runs = @ + 1] ELSE Flag(m3, TRUE, "HARNESS", "unknown cleaning action")
     IN Push(m4, CbFrame(k, o))
   ELSE Push(m0, CbFrame(k, o))
@@ -486,8 +494,12 @@ OnCbx(m, e) ==
        IN IF e.panic THEN MarkAll(m2, "fault", TRUE) ELSE m2
 
 \* ------------------------------------------------------------------ allocator
-OnAlloc(m, e) ==
-  LET o == e.o IN
+OnAlloc(m0, e) ==
+  LET o == e.o
+      \* the spare (empty) map that Cleaner::register drops again when a nested register created the map meanwhile
+      m == IF e.k = "box" /\ o > 150 /\ o < 200 /\ (~Known(m0, o) \/ m0.objs[o].bs \in {"none", "freed"})
+           THEN [m0 EXCEPT !.objs = (o :> [NoObj EXCEPT !.vs = "pending", !.ismap = TRUE, !.armed = "any"]) @@ @] ELSE m0
+  IN
   IF ~Known(m, o) THEN Flag(m, TRUE, "HARNESS", "allocation for unknown object") ELSE
   IF e.k = "box" THEN
     LET m1 == Flag(m, m.objs[o].bs # "none", "HARNESS", "second box for one object")
